@@ -96,7 +96,7 @@ def wl_bloom(ctx, rng, case):
         sc.cleanup()
 
 
-def legit_stream(rng, keys, n):
+def legit_stream(rng, keys, n, big=None):
     """list of (op, key, amount) where removals never exceed the key's outstanding count within the stream"""
     out, cnt = [], Counter()
     for _ in range(n):
@@ -109,6 +109,10 @@ def legit_stream(rng, keys, n):
             a = rng.choice([1, 1, 2, 3, 7, 100, 65536])
             out.append(("add", k, a))
             cnt[k] += a
+    if big:
+        k = rng.choice(keys)
+        out.insert(rng.randint(0, len(out)), ("add", k, big))
+        cnt[k] += big
     return out, cnt
 
 
@@ -123,8 +127,10 @@ def wl_counting(ctx, rng, case):
     est, rate, m, k = gen.bloom_geometry(rng, max_bits=4000)
     keys = gen.universe(rng, rng.randint(2, 16))
     hname, hf = gen.pick_hash(rng, keys)
-    A, cA = legit_stream(rng, keys, rng.randint(0, 14))
-    B, cB = legit_stream(rng, keys, rng.randint(0, 14))
+    # sometimes one large amount per operand: counts beyond the signed 32-bit range but (unless positions coincide) below the counter limit
+    bigA, bigB = rng.choice([(None, None)] * 8 + [(2**31 - 10, None), (None, 2**31 + 5), (2**31 - 10, 2**31 - 700), (3 * 10**9, 10**9)])
+    A, cA = legit_stream(rng, keys, rng.randint(0, 14), bigA)
+    B, cB = legit_stream(rng, keys, rng.randint(0, 14), bigB)
     if rng.random() < 0.15:
         B, cB = list(A), Counter(cA)  # two operands with IDENTICAL contents (fed the same multiset)
         ctx.count("identical_content_operand_pairs")
@@ -135,9 +141,11 @@ def wl_counting(ctx, rng, case):
     apply_stream(sA, A)
     apply_stream(sB, B)
     apply_stream(sAB, A + B)
-    if all(c > 0 for c in bl.cells_of(sAB)):
-        ctx.count("skipped_saturated")
+    if all(c > 0 for c in bl.cells_of(sAB)) or max(bl.cells_of(sAB)) >= 2**32 - 1:
+        ctx.count("skipped_saturated")  # every counter in use, or a counter at its limit: outside the statement
         return
+    if max(bl.cells_of(sAB)) > 2**31 - 1:
+        ctx.count("counting_unions_with_counters_beyond_int32")
     for first, second, tag in ((sA, sB, "A.union(B)"), (sB, sA, "B.union(A)")):
         res = first.union(second)
         ctx.check(res is not None, f"counting {tag} returned None")
@@ -151,7 +159,7 @@ def wl_counting(ctx, rng, case):
     # a filter united with ITSELF equals the filter fed its stream twice
     sAA = P.CountingBloomFilter(est, rate, **bl.kw_hash(hf))
     apply_stream(sAA, A + A)
-    if not all(c > 0 for c in bl.cells_of(sAA)):
+    if not all(c > 0 for c in bl.cells_of(sAA)) and max(bl.cells_of(sAA)) < 2**32 - 1:
         res = sA.union(sA)
         ctx.check(res is not None and bl.cells_of(res) == bl.cells_of(sAA), "counters of a.union(a) differ from the filter fed a's stream twice",
                   got=bl.cells_of(res)[:32] if res is not None else None, want=bl.cells_of(sAA)[:32])
